@@ -769,6 +769,75 @@ func TestVerif_C03_ManyOutstanding(t *testing.T) {
 		}
 		m.Count("sequential_exchanges_on_one_connection", 70000)
 	})
+	// the same long connection with transaction ids RE-USED from a small pool (a client that counts modulo something, or
+	// always asks with the same few ids) and answers lagging 0..3 requests behind: an id may be asked again as soon as its
+	// answer was read, and every answer must reach the request of that id that is outstanding NOW
+	m.Guard("rtmp.sequential.reuse", nil, func() {
+		r := m.Rand("sequential-reuse", 0)
+		ca, cb, _, _ := vnet.Pair(vnet.SegRandom(r.Split(), 4096), vnet.SegWhole())
+		pa, pb := NewProtocol(ca), NewProtocol(cb)
+		rep := map[string]interface{}{"mode": "sequential-reuse"}
+		pool := r.Pick(5, 40, 300)
+		var outstanding []float64
+		inFlight := map[float64]bool{}
+		answer := func(k int) bool {
+			tid := outstanding[0]
+			outstanding = outstanding[1:]
+			p := NewCreateStreamResPacket(amf0.Number(tid))
+			p.StreamID = amf0.Number(k % 1000)
+			pb.WritePacket(p, 0)
+			msg, err := pa.ReadMessage()
+			if err != nil {
+				m.Violationf("c03:read-error:response", rep, "%v", err)
+				return false
+			}
+			pkt, err := pa.DecodeMessage(msg)
+			if err != nil || reflect.TypeOf(pkt) != verifTCreateRes {
+				m.Violationf("c03:result-not-matched:sequential-reuse", rep, "exchange %d of a long connection (ids re-used from a pool of %d, %d still outstanding): _result for tid=%v: %T, %v", k, pool, len(outstanding), tid, pkt, err)
+				return false
+			}
+			delete(inFlight, tid)
+			m.Case()
+			m.Count("result_matched", 1)
+			return true
+		}
+		for k := 1; k <= 40000; k++ {
+			var tid float64
+			for {
+				tid = float64(2 + r.Intn(pool))
+				if !inFlight[tid] {
+					break
+				}
+			}
+			p := NewCreateStreamPacket()
+			p.TransactionID = amf0.Number(tid)
+			if err := pa.WritePacket(p, 0); err != nil {
+				m.Violationf("c03:write-error:sequential", rep, "request %d: %v", k, err)
+				return
+			}
+			if msg, err := pb.ReadMessage(); err != nil {
+				m.Violationf("c03:read-error:sequential", rep, "request %d: %v", k, err)
+				return
+			} else if _, err := pb.DecodeMessage(msg); err != nil {
+				m.Violationf("c03:decode-error:sequential", rep, "request %d: %v", k, err)
+				return
+			}
+			inFlight[tid] = true
+			outstanding = append(outstanding, tid)
+			for len(outstanding) > r.Intn(4) {
+				if !answer(k) {
+					return
+				}
+			}
+		}
+		for len(outstanding) > 0 {
+			if !answer(40000) {
+				return
+			}
+		}
+		m.Count("sequential_exchanges_with_reused_ids", 40000)
+		m.Classf("sequential-reuse/pool%d", pool)
+	})
 }
 
 // ---- typed waits ---------------------------------------------------------------------------
